@@ -299,12 +299,13 @@ def server_refusal(ctx, config):
     import Pyro5.api as P
     from Pyro5 import errors
     out = []
-    for size, commtimeout in ((1, 0.0), (2, 0.0), (1, 2.0), (2, 2.0)):
+    # (the last two daemons listen on a Unix domain socket: their peers have no host and port)
+    for size, commtimeout, unix in ((1, 0.0, False), (2, 0.0, False), (1, 2.0, False), (2, 2.0, False), (1, 0.0, True), (2, 2.0, True)):
         config.SERVERTYPE = "thread"
         config.THREADPOOL_SIZE = size
         config.THREADPOOL_SIZE_MIN = 1
         config.COMMTIMEOUT = commtimeout
-        rec = {"size": size, "commtimeout": commtimeout, "served": 0, "refused": 0, "reason_ok": True, "other": [], "after": None, "crashed": False}
+        rec = {"size": size, "commtimeout": commtimeout, "unix": unix, "served": 0, "refused": 0, "reason_ok": True, "other": [], "after": None, "crashed": False}
 
         @P.expose
         class Echo:
@@ -313,7 +314,7 @@ def server_refusal(ctx, config):
 
         def main():
             sc = S.CUR
-            d = P.Daemon(host="127.0.0.1")
+            d = P.Daemon(unixsocket="verif-c18-refusal-%d.sock" % size) if unix else P.Daemon(host="127.0.0.1")
             uri = d.register(Echo(), "echo")
             drv = memnet.ServerDriver(d)
             proxies = []
@@ -339,7 +340,7 @@ def server_refusal(ctx, config):
             # followed by one more client - each of them must be told, none may hold up the next
             from Pyro5 import protocol
             from .. import daemonlab as L
-            port = int(d.locationStr.split(":")[1])
+            where = "verif-c18-refusal-%d.sock" % size if unix else ("127.0.0.1", int(d.locationStr.split(":")[1]))
             for ser in ("serpent", "json", "marshal", "msgpack"):
                 px = P.Proxy(uri)
                 px._pyroSerializer = ser
@@ -354,7 +355,7 @@ def server_refusal(ctx, config):
                     if isinstance(x, (S.Hang, S.SchedAbort)):
                         raise
                     rec["other"].append("%s: %s" % (ser, type(x).__name__))
-            raw = memnet.NET.create_socket(connect=("127.0.0.1", port))
+            raw = memnet.NET.create_socket(connect=where)
             raw.sendall(L.patch(L.connect_msg("echo", "hello", "serpent"), 7, "!B", 99))
             sc.quiesce()
             got = bytes(raw.inbuf)
@@ -363,7 +364,7 @@ def server_refusal(ctx, config):
             raw.close()
             sc.quiesce()
             if commtimeout:
-                silent = memnet.NET.create_socket(connect=("127.0.0.1", port))
+                silent = memnet.NET.create_socket(connect=where)
                 for _ in range(int(commtimeout) + 1):
                     sc.sleep(1.0)
                     for p in proxies[:size]:
@@ -518,7 +519,7 @@ def run(ctx):
         raise util.MachineryError("vacuity: no refusal / no racing close among the recorded histories")
     # (5) the refusal path end to end
     for rec in server_refusal(ctx, config):
-        ctx.count(("server", rec["size"], rec["commtimeout"]))
+        ctx.count(("server", rec["size"], rec["commtimeout"], rec["unix"]))
         ok = (rec["served"] == rec["size"] and rec["refused"] == 2 and rec["reason_ok"] and not rec["other"]
               and rec["after"] == "new" and not rec["crashed"] and rec.get("busy_end") == 0)
         ctx.sample({"server_refusal": rec}, limit=8)
